@@ -231,13 +231,17 @@ func (p *ProjectionParser) makeProjection(s *Projection, q string, proj parse.Fi
 		p.haveFullname = true
 		field := s.addField(s.root, ".fullname")
 		initField(field)
-		makeFilter(extractFull)
-
-		project = func(r *benchfmt.Result, row *[]string) {
+		ext := func(r *benchfmt.Result) []byte {
 			if p.fullExtractor == nil {
 				p.fullExtractor = newExtractorFullName(p.fullnameKeys)
 			}
-			val := p.fullExtractor(r)
+			return p.fullExtractor(r)
+		}
+		// Filter on the same value we project.
+		makeFilter(ext)
+
+		project = func(r *benchfmt.Result, row *[]string) {
+			val := ext(r)
 			(*row)[field.idx] = s.intern(val)
 		}
 
